@@ -253,13 +253,18 @@ func (rm *ResponseManager) FinishTask(task *peertask.Task, p peer.ID, err error)
 	}
 }
 
-// CloseWithNetworkError closes a request due to a network error
-func (rm *ResponseManager) CloseWithNetworkError(requestID graphsync.RequestID, sub *subscriber) {
+// CloseWithNetworkError closes a request due to a network error. It returns an error
+// (graphsync.RequestNotFoundErr) when the response the subscriber was created for does not exist
+// any more: the request has already ended (completed, cancelled, failed), so the failed message is
+// not a new outcome for it.
+func (rm *ResponseManager) CloseWithNetworkError(requestID graphsync.RequestID, sub *subscriber) error {
 	done := make(chan error, 1)
 	_ = rm.send(&errorRequestMessage{requestID, queryexecutor.ErrNetworkError, done, sub}, nil)
 	select {
 	case <-rm.ctx.Done():
-	case <-done:
+		return rm.ctx.Err()
+	case err := <-done:
+		return err
 	}
 }
 
